@@ -578,10 +578,13 @@ def stack(arrays, /, *, axis=0):
     if not arrays:
         raise ValueError("Need array(s) to stack")
 
-    # TODO: check arrays all have same shape
-    # TODO: unify chunks
-
     a = arrays[0]
+
+    if any(x.shape != a.shape for x in arrays):
+        raise ValueError("all input arrays must have the same shape")
+
+    # unify chunks, since every output block is read from a single input block
+    arrays = [x if x.chunks == a.chunks else rechunk(x, a.chunksize) for x in arrays]
 
     axis = validate_axis(axis, a.ndim + 1)
     shape = a.shape[:axis] + (len(arrays),) + a.shape[axis:]
